@@ -18,10 +18,13 @@ def AND(
 
     # Use delayed evaluation to minimize th amount of values to evaluate.
     for logical in logicals:
-        val = logical()
-        for item in xl.flatten([val]):
+        items = xl.flatten([logical()])
+        # An error anywhere in an evaluated argument is the result, also when
+        # it follows a deciding value inside a range.
+        for item in items:
             if isinstance(item, xlerrors.ExcelError):
                 raise item
+        for item in items:
             if func_xltypes.Blank.is_blank(item):
                 continue
             if not bool(item):
@@ -56,10 +59,13 @@ def OR(
 
     # Use delayed evaluation to minimize th amount of valaues to evaluate.
     for logical in logicals:
-        val = logical()
-        for item in xl.flatten([val]):
+        items = xl.flatten([logical()])
+        # An error anywhere in an evaluated argument is the result, also when
+        # it follows a deciding value inside a range.
+        for item in items:
             if isinstance(item, xlerrors.ExcelError):
                 raise item
+        for item in items:
             if func_xltypes.Blank.is_blank(item):
                 continue
             if bool(item):
